@@ -183,12 +183,12 @@ fn source_readback(format: Format, game: truth::Game, maps: &[String], head: &st
 impl Prop for C03 {
     fn id(&self) -> &'static str { "C03" }
     fn relation(&self) -> &'static str {
-        "bytes (or error class) of InstrFormat::write_instr / llir::write_instrs for every instruction header layout == Lean `InstrIO.writeInstr` / `writeInstrs`"
+        "instruction level: bytes (or error class) of InstrFormat::write_instr / llir::write_instrs for every instruction header layout == Lean `InstrIO.writeInstr` / `writeInstrs`; container level: bytes (or error class) of MsgFile / StdFile / MissionMsgFile / OldeEclFile::write_to_stream on a structure == Lean `Files.writeMsg` / `writeStd` / `writeMission` / `writeEcl`, and the structure read_from_stream returns for a written file == Lean `Files.readMsg` / `readStd` / `readMission` / `readEcl` of the same bytes"
     }
     fn rule(&self) -> &'static str {
-        "per (game, language) header layout: instructions with time/opcode/blob length/mask at and beyond each on-disk field width (fitting and non-fitting streams), whole scripts; file level: generated sources of every format plus raw @blob sources with boundary header values: compile -> in-memory file -> bytes -> re-read -> field-for-field comparison (Debug rendering without spans/file offsets); non-trivial = at least one field at a width boundary or a full generated file; distinct by case text"
+        "per (game, language) header layout: instructions with time/opcode/blob length/mask at and beyond each on-disk field width (fitting and non-fitting streams), whole scripts; container level (MSG, STD both layouts, mission MSG, old ECL TH06-TH095): in-memory files compiled from generated sources and the bundled binaries -> structure S-expression -> written bytes and re-read structure compared with the model; structures generated directly at the boundaries (sparse / repeated / zero / dangling table entries, flags in games without flags, unused scripts, text of 126..256 bytes in 128- and 64-byte fields, object references to missing objects, 0..17 timelines, sub / timeline / quad counts 65535..65537, misfitting instructions) written by the real writer vs the model, plus the oracle `written structure read back == requested structure up to the normalisations of the Lean round-trip theorems`; numeric meta fields of STD / mission sources at and beyond their width must be stored as requested or rejected; file level: generated sources of every format plus raw @blob sources with boundary header values: compile -> in-memory file -> bytes -> re-read -> field-for-field comparison (Debug rendering without spans/file offsets); non-trivial = at least one field at a width boundary or a full generated file; distinct by case text"
     }
-    fn theorems(&self) -> &'static [&'static str] { &["TruthModel.C03.read_write", "TruthModel.C03.write_err_iff_not_fits"] }
+    fn theorems(&self) -> &'static [&'static str] { &["TruthModel.C03.read_write", "TruthModel.C03.write_err_iff_not_fits", "TruthModel.C03.msg_read_write", "TruthModel.C03.msg_write_err_iff", "TruthModel.C03.std_read_write", "TruthModel.C03.std_write_err_iff", "TruthModel.C03.mission_read_write", "TruthModel.C03.mission_write_err_iff", "TruthModel.C03.ecl_read_write", "TruthModel.C03.ecl_write_err_iff", "TruthModel.C03.ecl_write_count_truncation"] }
 
     fn gen(&self, tier: Tier, rng: &mut Rng) -> Vec<Case> {
         let scale = if tier == Tier::Quick { 1 } else { 20 };
@@ -234,6 +234,8 @@ impl Prop for C03 {
             let g = gensrc::gen_anm_v0_multi_entry(rng);
             out.push(Case::search(Sexp::app("file-known", vec![Sexp::atom("anm-v0-multi-entry"), Sexp::atom(g.format.name()), Sexp::atom(format!("{}", g.game)), Sexp::list(vec![]), Sexp::str(g.text)])).tag("known-finding-stream-anm-v0-multi-entry"));
         }
+        // container level: whole files against the Lean models of the MSG / STD / mission / old ECL readers and writers
+        out.extend(super::files::gen_cases(rng, scale, false));
         for _ in 0..500 * scale {
             let (f, g, text) = boundary_source(rng);
             out.push(Case::search(Sexp::app("file", vec![Sexp::atom(f.name()), Sexp::atom(format!("{}", g)), Sexp::list(vec![]), Sexp::str(text)])).tag(format!("boundary-file-{}", f.name())));
@@ -245,6 +247,10 @@ impl Prop for C03 {
         match case.head() {
             Some("winstr") => eval_winstr(case, false),
             Some("winstrs") => eval_winstr(case, true),
+            Some("rfile") => super::files::eval_rfile(case),
+            Some("wfile") => super::files::eval_wfile(case),
+            Some("wrfile") => super::files::eval_wrfile(case),
+            Some("metafield") => super::files::eval_metafield(case),
             Some("wr-roundtrip") => {
                 let w = eval_winstr(case, false);
                 if w.head() != Some("ok") { return Sexp::app("rejected", vec![]); }
